@@ -200,8 +200,26 @@ BUILTIN_CLASSES = {"float": ["float", "numbers.Real", "object"], "int": ["int", 
                    "dict": ["dict", *_SIZED, "collections.abc.Mapping", "object"], "list": ["list", *_SIZED, "collections.abc.Sequence", "object"],
                    "tuple": ["tuple", *_SIZED, "collections.abc.Sequence", "object"], "type": ["type", "object"],
                    "set": ["set", *_SIZED, "object"]}
-KIND_CLASS = {"real": "float", "bool": "bool", "str": "str", "int": "int", "slice": "slice"}
+KIND_CLASS = {"real": "float", "bool": "bool", "str": "str", "int": "int", "slice": "slice", "complex": "complex"}
 BUILTIN_CLASSES["slice"] = ["slice", "object"]
+BUILTIN_CLASSES["complex"] = ["complex", "numbers.Complex", "numbers.Number", "object"]
+# NumPy scalar VALUES (an Opaque whose kind is a key of NUMPY_SCALAR_MRO): the abstract base classes NumPy registers them with, and their Python bases
+NUMPY_SCALAR_ABCS = {
+    "numpy.floating": ["numbers.Real", "numbers.Complex", "numbers.Number"],
+    "numpy.integer": ["numbers.Integral", "numbers.Rational", "numbers.Real", "numbers.Complex", "numbers.Number"],
+    "numpy.complexfloating": ["numbers.Complex", "numbers.Number"],
+}
+NUMPY_SCALAR_PYBASES = {"numpy.float64": ["builtins.float", "float"], "numpy.complex128": ["builtins.complex", "complex"], "numpy.str_": ["builtins.str", "str"]}
+
+
+def numpy_scalar_isa(cname: str, tname: str) -> bool:
+    """issubclass(<numpy scalar type cname>, <class named tname>) for the part of the hierarchy modelled here"""
+    mro = [cname, *NUMPY_SCALAR_MRO[cname]]
+    if tname in mro or tname in ("object", "builtins.object"):
+        return True
+    if tname in NUMPY_SCALAR_PYBASES.get(cname, ()):
+        return True
+    return any(tname in NUMPY_SCALAR_ABCS.get(b, ()) for b in mro)
 
 
 class World:
@@ -701,6 +719,8 @@ class Interp:
         if isinstance(v, Inst):
             return v.cls.name
         if isinstance(v, Opaque):
+            if v.kind in NUMPY_SCALAR_MRO:
+                return v.kind
             return KIND_CLASS.get(v.kind)
         if v is None:
             return "NoneType"
@@ -738,6 +758,10 @@ class Interp:
             tn = target
         else:
             raise Undecided(f"isinstance/issubclass against {target!r}")
+        if cname in NUMPY_SCALAR_MRO:
+            if isinstance(target, External):
+                return numpy_scalar_isa(cname, target.name)
+            return False  # not an instance of any repository class
         if cname in BUILTIN_CLASSES:
             return tn in BUILTIN_CLASSES[cname] or tn.split(".")[-1] in [x.split(".")[-1] for x in BUILTIN_CLASSES[cname]]
         return self.w.issubclass(cname, tn)
@@ -1017,6 +1041,8 @@ class Interp:
             m = self.opaque_attrs.get(o.tag)
             if m is not None and attr in m:
                 return m[attr]
+            if m is not None and m.get("__closed__"):
+                raise PyRaise("AttributeError", f"{o.tag} has no attribute {attr}")
             return Opaque(("attr", o.tag, attr))
         if isinstance(o, dict):
             return ("dictmethod", o, attr)
@@ -1182,6 +1208,8 @@ class Interp:
             cn = self.class_name_of(args[0])
             if cn is None:
                 return Opaque(("type", args[0] if isinstance(args[0], Opaque) else repr(args[0])))
+            if cn in NUMPY_SCALAR_MRO:
+                return External(cn)
             return self.w.classes.get(cn) or External(f"builtins.{cn}")
         if nm in ("builtins.str", "builtins.float", "builtins.int", "builtins.bool"):
             if args and not isinstance(args[0], (Opaque, Inst)):
@@ -1354,7 +1382,7 @@ def _issubclass(I, args, kwargs, node):
             if isinstance(t, tuple):
                 return any(hit(x) for x in t)
             if isinstance(t, External):
-                return t.name == c.name or t.name in NUMPY_SCALAR_MRO[c.name]
+                return numpy_scalar_isa(c.name, t.name)
             return False
         return hit(target)
     if isinstance(c, Opaque):
